@@ -61,6 +61,15 @@ def run(chk):
         r06_6(chk, repo)
     if chk.want("R06.7"):
         r06_7(chk, repo)
+    chk.rule("R06.10", "the field the Hirshfeld mesher samples is the stockholder weight at every grid point: the Python wrappers forward points and "
+                       "background unchanged (= C05 R05.2)", 4)
+    if chk.want("R06.10"):
+        from ..inherit import inherit
+        inherit(chk, "R06.10", "c05", ["R05.2"])
+    chk.rule("R06.11", "functions evaluated on the surface vertices (property callbacks, d_norm, density and weight wrappers) do not modify the vertex "
+                       "array in place: the vertices handed to the mesh are those the mesher produced", 6)
+    if chk.want("R06.11"):
+        r06_11(chk, repo)
     chk.assume("closedness for arbitrary fields additionally needs neighbouring cells to resolve ambiguous faces identically (run-time test_face) "
                "and the shared-vertex face layers; convergence of volume / isovalue and enclosure of atoms are not decided")
     chk.assume("the installed _mc_lewiner .so may lag the .pyx source (Cython is not available to rebuild)")
@@ -589,3 +598,22 @@ def r06_7(chk, repo):
             "property_to_color($prop" in col[-1].key() and kw.get("vertex_colors") is not None and kw["vertex_colors"].key() == "$color" + ("" if len(col) == 1 else f"'{len(col) - 1}")
         chk.ob("R06.7", rel, q, "vertex colours are computed from a vertex property of that same object", okc, fingerprint="colour",
                found=f"prop={prop[-1] if prop else None} colour={kw.get('vertex_colors')}")
+
+
+# ------------------------------------------------------------------------------------------------ R06.11
+def r06_11(chk, repo):
+    from ..effects import param_mutations
+    sites = [(MOL, "Molecule.electrostatic_potential"), (MOL, "Molecule.electrostatic_potential_from_cube"), (CR, "_nearest_molecule_idx"),
+             (DP, "PromoleculeDensity.rho"), (DP, "PromoleculeDensity.d_norm"), (DP, "StockholderWeight.weights"), (DP, "StockholderWeight.d_norm"),
+             (SF, "promolecule_density_isosurface"), (SF, "stockholder_weight_isosurface")]
+    n = 0
+    for rel, q in sites:
+        m = repo.module(rel)
+        if q not in m.funcs:
+            continue
+        n += 1
+        chk.saw(rel, q)
+        mut = {k: v for k, v in param_mutations(repo, m, q).items() if k not in ("self", "cls")}
+        chk.ob("R06.11", rel, q, "does not modify its array arguments in place", not mut, node=m.funcs[q], fingerprint=f"mutates:{q}",
+               found=str({k: v[:2] for k, v in mut.items()})[:300])
+    chk.need(n >= 6, f"R06.11: only {n} of the vertex-consuming functions were found")
